@@ -320,19 +320,31 @@ func runLateStart(c *fw.Ctx) {
 			c.Case(id, map[string]interface{}{"config": cfgName, "followed_blocks": k, "side_block_height": h, "uncle_depth_for_next_block": depth,
 				"note": "the sealed block is written to the child log (NOTE mined ...) before it is re-imported"}, func() {
 				mrand.Seed(int64(c.Seed)*31 + int64(rep*10+depth))
-				t := gen.NewTree(w)
 				var main []*types.Block
-				parent := t.Genesis
-				for i := 0; i < k; i++ {
-					b := t.Add(r, parent, gen.BlockPlan{Coinbase: w.Coinbases[1], Kinds: gen.RandomKinds(r, r.Intn(4))})
-					main = append(main, b.Block)
-					parent = b.Block
+				var side *types.Block
+				built := func() (ok bool) {
+					defer func() {
+						if p := recover(); p != nil {
+							c.Violate("builder_failed", "GenerateChain", builderErrClass(fmt.Sprint(p)), fmt.Sprintf("core.GenerateChain failed while assembling the followed chain: %v", p))
+						}
+					}()
+					t := gen.NewTree(w)
+					parent := t.Genesis
+					for i := 0; i < k; i++ {
+						b := t.Add(r, parent, gen.BlockPlan{Coinbase: w.Coinbases[1], Kinds: gen.RandomKinds(r, r.Intn(4))})
+						main = append(main, b.Block)
+						parent = b.Block
+					}
+					sideParent := t.Genesis
+					if h > 1 {
+						sideParent = main[h-2]
+					}
+					side = t.Add(r, sideParent, gen.BlockPlan{Coinbase: w.Coinbases[2], Extra: []byte("competitor"), Kinds: gen.RandomKinds(r, r.Intn(2))}).Block
+					return true
+				}()
+				if !built {
+					return
 				}
-				sideParent := t.Genesis
-				if h > 1 {
-					sideParent = main[h-2]
-				}
-				side := t.Add(r, sideParent, gen.BlockPlan{Coinbase: w.Coinbases[2], Extra: []byte("competitor"), Kinds: gen.RandomKinds(r, r.Intn(2))}).Block
 
 				n := newMiningNode(w)
 				defer n.stop()
